@@ -214,6 +214,15 @@ type WithCustom struct {
 	N  int               `json:"n"`
 }
 
+type WithCustomPtr struct {
+	First Custom             `json:"first"`
+	P     *Custom            `json:"p"`
+	PP    **Custom           `json:"pp,omitempty"`
+	SP    []*Custom          `json:"sp"`
+	MP    map[string]*Custom `json:"mp"`
+	Last  Custom             `json:"last"`
+}
+
 // CustomObj is overridden by an object-typed schema (usable for embedded overrides).
 type CustomObj struct {
 	P int `json:"p"`
